@@ -161,7 +161,41 @@ pub fn settings(g: &mut G, doc: &Value, rich: bool) -> Settings {
 pub fn history(g: &mut G, doc: &Value) -> Vec<Step> {
     let defs = doc.get("definitions").cloned().unwrap_or(json!({}));
     let has_root = doc.get("title").is_some();
-    match g.below(4) {
+    match g.below(6) {
+        4 | 5 => {
+            // the definitions split by connected components of the reference graph into
+            // several add_ref_types calls in random order (the documented precondition:
+            // a batch is self-contained), then the root type if there is one
+            let mut comps = super::c16::components(doc);
+            g.shuffle(&mut comps);
+            let mut groups: Vec<Vec<String>> = vec![];
+            for c in comps {
+                if groups.is_empty() || g.chance(2, 3) {
+                    groups.push(c);
+                } else {
+                    let k = g.below(groups.len());
+                    groups[k].extend(c);
+                }
+            }
+            let mut h: Vec<Step> = groups
+                .iter()
+                .map(|grp| {
+                    let mut m = Map::new();
+                    for n in grp {
+                        m.insert(n.clone(), doc["definitions"][n].clone());
+                    }
+                    Step::Refs { defs: Value::Object(m) }
+                })
+                .collect();
+            if has_root {
+                let mut root = doc.as_object().cloned().unwrap_or_default();
+                root.remove("definitions");
+                root.remove("$schema");
+                let title = root.get("title").and_then(|t| t.as_str()).map(|s| s.to_string());
+                h.push(Step::Type { schema: Value::Object(root), hint: title });
+            }
+            h
+        }
         0 | 1 => vec![Step::Root { doc: doc.clone() }],
         2 => {
             let mut h = vec![Step::Refs { defs }];
